@@ -9,6 +9,13 @@ S = common.SPEC
 #   expectation: "ok" or the name of the invariant / property TLC has to report as violated
 TABLE = [
     (S / "lock", "MC_ResourceImpl.tla", "MC_ResourceImpl_orig.cfg", "C01", "F1: Resource counted admitted waiters when they woke up (CountAtWake = TRUE)"),
+    (S / "lock", "ResourceImplDev.tla", "NEG_ResourceImpl_none.cfg", "ok", "ResourceImplDev with Deviation = none is ResourceImpl (same 19 063 states, everything holds)"),
+    (S / "lock", "ResourceImplDev.tla", "NEG_ResourceImpl_barge.cfg", "ActionProperty@RWLock",
+     "C03: the reader fast path of lock() looks at m_activeOp only, not at the wait queue -- a reader overtakes a parked writer, ResourceImpl no longer refines RWLock (PNext)"),
+    (S / "lock", "ResourceImplDev.tla", "NEG_ResourceImpl_nomerge.cfg", "C12P",
+     "C12: enqueue() gives every reader a queue entry of its own -- consecutive parked readers are admitted one at a time"),
+    (S / "lock", "ResourceImplDev.tla", "NEG_ResourceImpl_notifyone.cfg", "NoDeadlockD",
+     "C02: unlock() wakes one waiter instead of all -- a member of an admitted read batch sleeps forever"),
     (S / "pool", "MC_Pool.tla", "MC_Pool_orig.cfg", "NoDeadlockB", "F2: stop() cleared the flag outside the queue mutex (FlagUnderMutex = FALSE): lost wake-up, stop() never returns"),
     (S / "pool", "MC_Pool.tla", "MC_Pool_origrace.cfg", "NoRace", "F2 as a data race on m_isRunning"),
     (S / "pool", "MC_Pool.tla", "MC_Pool_expiryrace.cfg", "NoRace", "F3: Thread::m_isFinished a plain bool (FinishedAtomic = FALSE)"),
@@ -41,7 +48,8 @@ def run(row):
         got = "ok"
     else:
         m = re.search(r"(?:Invariant|Action property|Temporal property|property) (\w+) (?:is|was) violated", out)
-        got = m.group(1) if m else ("deadlock" if "Deadlock reached" in out else "error rc=%s" % r["rc"])
+        m2 = re.search(r"Action property line \d+, col \d+ to line \d+, col \d+ of module (\w+) is violated", out)
+        got = m.group(1) if m else ("ActionProperty@" + m2.group(1) if m2 else ("deadlock" if "Deadlock reached" in out else "error rc=%s" % r["rc"]))
     return {"spec": "%s/%s" % (d.name, mod), "cfg": cfg, "stands_for": what, "expected": exp, "got": got, "as_expected": got == exp,
             "distinct_states": r["distinct"], "wall_s": r["wall_s"]}
 
